@@ -9,7 +9,7 @@ use crate::refmodel::rlp;
 
 /// The public key (scheme, bytes) a record of family `fam` with these pairs is verified against.
 pub fn record_key(fam: FamId, pairs: &[(Vec<u8>, Vec<u8>)]) -> Option<(Scheme, Vec<u8>)> {
-    if matches!(fam, FamId::Tiny | FamId::Mid) {
+    if fam.is_toy() {
         // (the Scheme tag is meaningless for the toy scheme; callers use `node_id_for` / `independent_verify`)
         let raw = &pairs.iter().find(|(k, _)| k == b"t")?.1;
         return match rlp::decode_exact(raw) {
@@ -23,8 +23,8 @@ pub fn record_key(fam: FamId, pairs: &[(Vec<u8>, Vec<u8>)]) -> Option<(Scheme, V
 
 /// keccak256 of the uncompressed form of the key, per family
 pub fn node_id_for(fam: FamId, scheme: Scheme, pk: &[u8]) -> Option<[u8; 32]> {
-    if matches!(fam, FamId::Tiny | FamId::Mid) {
-        return if pk.len() == 4 { Some(crate::refmodel::keccak::keccak256(pk)) } else { None };
+    if fam.is_toy() {
+        return if pk.len() == 4 || pk.len() == 64 || (pk.len() == 1 && pk[0] < 0x80) { Some(crate::refmodel::keccak::keccak256(pk)) } else { None };
     }
     node_id_of(scheme, pk)
 }
@@ -35,7 +35,7 @@ pub fn independent_verify(fam: FamId, s: &Snap) -> Verdict {
         Some(x) => x,
         None => return Verdict::Invalid,
     };
-    if matches!(fam, FamId::Tiny | FamId::Mid) {
+    if fam.is_toy() {
         let c = record::content_from_fields(s.seq, &s.pairs);
         return keys::tiny_verify(&pk, &c, &s.sig);
     }
